@@ -31,7 +31,9 @@ ASSUMPTIONS = ["elements/keys have lawful __eq__/__hash__ (tokens are mapped to 
                "CPython dict preserves insertion order; itertools.tee/islice/zip/zip_longest behave as documented",
                "negative maxsplit, window size 0, chunk size <= 0, overlap_size >= chunk_size and non-boolean "
                "partition keys are outside 'valid parameters' (modelled where cheap, not constrained by the Spec)"]
-TRUSTED = ["harness/translators/c09_loops.py (loops of split_iter / unique_iter / bucketize / redundant / chunked_iter / lstrip_iter / rstrip_iter -> Gallina; the argument "
+TRUSTED = ["harness/translators/c09_window.py (windowed_iter -> program of Model/C09_PyWindow.v; thin wrappers compared literally) and "
+           "that interpreter's reading of tee / next / StopIteration / zip / zip_longest",
+           "harness/translators/c09_loops.py (loops of split_iter / unique_iter / bucketize / redundant / chunked_iter / lstrip_iter / rstrip_iter -> Gallina; the argument "
            "dispatch preludes are compared literally, not translated) and its stated let/if/continue/yield conventions",
            "harness/translators/c09_ranges.py (AST of chunk_ranges -> Model/C09_PyRanges.v program) and the interpreter's "
            "reading of that Python subset (range(), %, min, generator return)",
@@ -55,12 +57,19 @@ def translators(repo):
     seen2, total2 = c09_loops.selftest(repo)
     if seen2 != total2:
         raise RuntimeError("loop translator self-test: only %d of %d source perturbations were visible" % (seen2, total2))
-    _TIE.update({"deep_embedding": ["chunk_ranges"],
+    import c09_window
+    text3 = c09_window.translate(repo)
+    seen3, total3 = c09_window.selftest(repo)
+    if seen3 != total3:
+        raise RuntimeError("window translator self-test: only %d of %d source perturbations were visible" % (seen3, total3))
+    _TIE.update({"deep_embedding": ["chunk_ranges", "windowed_iter"],
+                 "literal_wrappers": sorted(c09_window.WRAPPERS),
                  "shallow_loops": list(c09_loops.FUNCTIONS) + list(c09_loops.ITER_FUNCTIONS),
-                 "not_translated": ["windowed_iter (tee/zip/zip_longest)", "pairwise_iter", "partition",
-                                    "list-returning wrappers", "argument-dispatch preludes (guarded structurally)"],
-                 "selftest": "c09_ranges %d/%d, c09_loops %d/%d source perturbations visible" % (seen, total, seen2, total2)})
-    return {"C09_Gen": text, "C09_Src": text2}
+                 "not_translated": ["argument-dispatch preludes (guarded structurally)",
+                                    "itertools.tee / zip / zip_longest themselves (read as Model.zip_loop / zip_longest_loop)"],
+                 "selftest": "c09_ranges %d/%d, c09_loops %d/%d, c09_window %d/%d source perturbations visible"
+                             % (seen, total, seen2, total2, seen3, total3)})
+    return {"C09_Gen": text, "C09_Src": text2, "C09_Win": text3}
 
 
 _TIE = {}
